@@ -1809,8 +1809,13 @@ class ECDHCipherText(CipherText):
         # unwrap and unpad m
         _m = aes_key_unwrap(z, self.c, default_backend())
 
-        padder = PKCS7(64).unpadder()
-        return padder.update(_m) + padder.finalize()
+        # PKCS5 padding as in RFC 6637 section 8: the sender may pad m up to 40 octets,
+        # so the pad value is not bounded by a cipher block size
+        _m = bytearray(_m)
+        padlen = _m[-1]
+        if not 0 < padlen <= len(_m) or _m[-padlen:] != bytearray([padlen]) * padlen:
+            raise PGPDecryptionError("ECDH decryption failed")
+        return bytes(_m[:-padlen])
 
     def __init__(self):
         super(ECDHCipherText, self).__init__()
